@@ -1,1 +1,12 @@
-PROP = {'id': 'C14', 'level': 'proof', 'functions': ['HpcSubmitter.run', 'Cluster._mark_canceled', 'Cluster.mark_canceled', 'JobSubmitter.cancel_jobs'], 'native': ['HpcSubmitter.run', 'JobSubmitter.cancel_jobs'], 'records': ['HpcSubmitter', 'Cluster', 'ClusterConfig'], 'min_obligations': 100, 'assumptions': ["whether scancel succeeds is the scheduler's business"], 'not_decided': ['the cancel_jobs CLI callback (promotion loop, completion step) is exercised only by the bounded simulator harness'], 'explanation': 'HpcSubmitter.run: a canceled submission hands no batch to the scheduler (ghost.runs unchanged); mark_canceled persists the flag under the lock.'}
+PROP = {'id': 'C14',
+ 'level': 'proof',
+ 'functions': ['HpcSubmitter.run', 'Cluster._mark_canceled', 'Cluster.mark_canceled', 'JobSubmitter.cancel_jobs', 'cancel_jobs'],
+ 'native': ['HpcSubmitter.run', 'JobSubmitter.cancel_jobs'],
+ 'records': ['HpcSubmitter', 'Cluster', 'ClusterConfig'],
+ 'min_obligations': 100,
+ 'assumptions': ["whether scancel succeeds is the scheduler's business"],
+ 'not_decided': [],
+ 'explanation': 'HpcSubmitter.run: a canceled submission hands no batch to the scheduler (ghost.runs unchanged); mark_canceled persists the flag under the '
+                'lock. The cancel-jobs callback is under contract: it retries promotion up to 60 times without holding the role in between, hands nothing to '
+                'the scheduler itself, exits 0 without --complete only after the submission was found finished or every active batch was asked to be canceled '
+                'and the flag persisted, and gives the role back before every exit.'}
